@@ -216,7 +216,8 @@ func (s *slSites) mutate(r *rand.Rand) (cat, desc string) {
 	cats := []string{"clear-submessage", "clear-submessage", "clear-submessage", "list", "list", "list",
 		"retarget-id", "retarget-id", "retarget-id", "retarget-id", "enum-kind", "enum-kind",
 		"number", "number", "number", "number", "string", "overlap", "overlap", "duplicate-key", "duplicate-key", "duplicate-key",
-		"enum-attribute", "interface-number", "interface-number", "oneof", "oneof", "group-position", "group-position"}
+		"enum-attribute", "interface-number", "interface-number", "oneof", "oneof", "group-position", "group-position",
+		"group-copy", "group-copy", "group-copy", "many-interfaces"}
 	cat = cats[r.Intn(len(cats))]
 	switch cat {
 	case "clear-submessage":
@@ -412,6 +413,113 @@ func (s *slSites) mutate(r *rand.Rand) (cat, desc string) {
 		}
 		ref.Set(posFd, protoreflect.ValueOfUint32(nv))
 		return cat, sprintf("%s.groups[%d].refs[%d].rel_start_bit: %d set to %d for signal %q, which other groups place at %d", st.path, c.g, c.i, old, nv, ref.Get(idFd).String(), old)
+	case "group-copy":
+		// a child of one group is listed, at the position it has there, in ANOTHER group as well
+		// (where that position may be taken): the loader inserts group by group and must check
+		// every group's layout, also for a signal it already knows
+		if len(s.muxes) == 0 {
+			return cat, ""
+		}
+		st := s.muxes[r.Intn(len(s.muxes))]
+		groups := st.m.Mutable(st.fd).List()
+		refsFd := st.fd.Message().Fields().ByName("refs")
+		idFd := refsFd.Message().Fields().ByName("signal_entity_id")
+		posFd := refsFd.Message().Fields().ByName("rel_start_bit")
+		var from []int
+		for g := 0; g < groups.Len(); g++ {
+			if groups.Get(g).Message().Get(refsFd).List().Len() > 0 {
+				from = append(from, g)
+			}
+		}
+		if len(from) == 0 || groups.Len() < 2 {
+			return cat, ""
+		}
+		g1 := from[r.Intn(len(from))]
+		g2 := (g1 + 1 + r.Intn(groups.Len()-1)) % groups.Len()
+		src := groups.Get(g1).Message().Get(refsFd).List()
+		ref := src.Get(r.Intn(src.Len())).Message()
+		// prefer a pair (child, other group) in which the child's position is certainly taken:
+		// another child starts at the same bit there
+		type pair struct{ g1, i, g2 int }
+		var sure []pair
+		for a := 0; a < groups.Len(); a++ {
+			ra := groups.Get(a).Message().Get(refsFd).List()
+			for i := 0; i < ra.Len(); i++ {
+				for b := 0; b < groups.Len(); b++ {
+					if b == a {
+						continue
+					}
+					rb := groups.Get(b).Message().Get(refsFd).List()
+					same, taken := false, false
+					for k := 0; k < rb.Len(); k++ {
+						if rb.Get(k).Message().Get(idFd).String() == ra.Get(i).Message().Get(idFd).String() {
+							same = true
+						} else if rb.Get(k).Message().Get(posFd).Uint() == ra.Get(i).Message().Get(posFd).Uint() {
+							taken = true
+						}
+					}
+					if taken && !same {
+						sure = append(sure, pair{a, i, b})
+					}
+				}
+			}
+		}
+		if len(sure) > 0 && r.Intn(4) != 0 {
+			c := sure[r.Intn(len(sure))]
+			g1, g2 = c.g1, c.g2
+			ref = groups.Get(g1).Message().Get(refsFd).List().Get(c.i).Message()
+		}
+		dst := groups.Get(g2).Message().Mutable(refsFd).List()
+		for i := 0; i < dst.Len(); i++ {
+			if dst.Get(i).Message().Get(idFd).String() == ref.Get(idFd).String() {
+				return cat, ""
+			}
+		}
+		cp := dst.NewElement()
+		cp.Message().Set(idFd, ref.Get(idFd))
+		cp.Message().Set(posFd, ref.Get(posFd))
+		dst.Append(cp)
+		return cat, sprintf("%s.groups[%d]: signal %q of group %d listed here too at its position %d", st.path, g2, ref.Get(idFd).String(), g1, ref.Get(posFd).Uint())
+	case "many-interfaces":
+		// a node with several hundred interfaces, and a reference to one of the high numbers: valid
+		var counts []slSite
+		for _, st := range s.ifNums {
+			if st.fd.Name() == "interface_count" {
+				counts = append(counts, st)
+			}
+		}
+		if len(counts) == 0 {
+			return cat, ""
+		}
+		nd := counts[r.Intn(len(counts))]
+		entFd := nd.m.Descriptor().Fields().ByName("entity")
+		if entFd == nil || !nd.m.Has(entFd) {
+			return cat, ""
+		}
+		em := nd.m.Get(entFd).Message()
+		nodeID := em.Get(em.Descriptor().Fields().ByName("entity_id")).String()
+		var refs []slSite
+		for _, st := range s.ifNums {
+			nfd := st.m.Descriptor().Fields().ByName("node_entity_id")
+			if st.fd.Name() != "interface_count" && nfd != nil && st.m.Get(nfd).String() == nodeID {
+				refs = append(refs, st)
+			}
+		}
+		count := pick(r, uint32(257), 300, 300, 1000)
+		old := nd.m.Get(nd.fd).Uint()
+		nd.m.Set(nd.fd, protoreflect.ValueOfUint32(count))
+		d := sprintf("%s: interface_count %d set to %d", nd.path, old, count)
+		if len(refs) > 0 {
+			st := refs[r.Intn(len(refs))]
+			num := pick(r, count-1, 256, 255+uint32(r.Intn(int(count-255))))
+			if st.fd.Kind() == protoreflect.Int32Kind {
+				st.m.Set(st.fd, protoreflect.ValueOfInt32(int32(num)))
+			} else {
+				st.m.Set(st.fd, protoreflect.ValueOfUint32(num))
+			}
+			d += sprintf("; %s set to %d", st.path, num)
+		}
+		return cat, d
 	case "enum-attribute":
 		if len(s.enumAttrs) == 0 {
 			return cat, ""
